@@ -62,6 +62,26 @@ T = {
  "C18-r3-null-check-only-in-primary-printer": ("C18", "null value of a pointer-like type that has a user printer specialisation or operator<<: the user code is entered with a null value instead of printing nullptr", "C18 (engine S: 25 types with user printer / operator<< and a null state)"),
  "C19-r3-named-forbid-uses-short-times": ("C19", "TROMPELOEIL_LONG_MACROS and TROMPELOEIL_NAMED_FORBID_CALL: the macro uses the short name TIMES and no longer compiles", "C19 (deterministic family x macro-mode group of engine K)"),
  "C20-r3-single-call-moves-yields": ("C20", "TIMES / RT_TIMES written after CO_RETURN / CO_THROW and >= 2 calls: the first coroutine took the expressions with it, later coroutines yield nothing / return moved-from values", "C20"),
+ "C01-r4-moved-mock-reverses-expectations": ("C01", "movable mock moved an odd number of times with >= 2 overlapping live expectations on one function: the list is re-linked in reverse, the oldest is searched first (forbid over allow accepted, etc.)", "C01"),
+ "C02-r4-list-move-reverses-order": ("C02", "same trigger as C01-r4 at another site (list move constructor): after a mock move the oldest matching expectation handles the call", "C02"),
+ "C03-r4-moved-mock-loses-saturated-list": ("C03", "movable mock moved while a saturated expectation is alive, then a surplus call: the report no longer names the saturated expectation", "C03"),
+ "C04-r4-rt-times-one-arg-loses-lower-bound": ("C04", "the one-argument spelling RT_TIMES(n): lower bound 0, no shortfall report at end of life", "C04 (after the run-time bound spellings RT_TIMES(n) / AT_LEAST / AT_MOST / _V were added as literal sites and a wrong flag of a never-called expectation no longer ends the case), C03 sees the wrong is_satisfied() at once"),
+ "C05-r4-seq-move-assign-copies-state": ("C05", "sequence object move-ASSIGNED from, then the moved-from object destroyed or re-assigned: it still shares the state, pending steps are dropped, later calls accepted out of order", "C05 (after sequence moves by assignment were added - engine W only move-constructed - and the case goes on after the spurious teardown report of a move), also C06 / C14"),
+ "C06-r4-seq-move-ctor-copies-state": ("C06", "sequence move CONSTRUCTION copies the shared state: destroying the moved-from object reports and unlinks the pending expectations", "C06"),
+ "C07-r4-forbid-report-prints-expectation-values": ("C07", "forbidden-call report composed from the expectation's matchers instead of the actual arguments (visible with wildcards / matchers)", "C07"),
+ "C08-r4-handler-released-at-saturation": ("C08", "side effect calls the same function recursively, the nested call is the last one the same expectation permits: the RETURN/THROW handler is destroyed under the outer call", "C08"),
+ "C09-r4-throw-13-15-transposed": ("C09", "THROW / LR_THROW naming _13 or _15 on a function with >= 13 parameters: positions transposed", "C09"),
+ "C10-r4-le-ge-negated-strict": ("C10", "le / ge written as !(x > v) / !(x < v): wrong for unordered pairs (NaN, partial orders)", "C10 (after the relational laws on doubles with NaN and on a partial order were added to engine M)"),
+ "C11-r4-starts-with-elements-exact-length": ("C11", "range_starts_with(elements...) on a range with exactly as many members as listed elements", "C11"),
+ "C12-r4-expect-death-unlocked": ("C12", "two threads register / release REQUIRE_DESTRUCTION on the same deathwatched object: chain head written without the lock", "C12 (mode B linearizability oracle; engine T now also lets the owner register a further requirement concurrently: swatch)"),
+ "C13-r4-unexpected-destruction-silent-in-catch": ("C13", "deathwatched object without requirement destroyed inside a catch handler: no report", "C13 (after operations were also executed inside a catch handler and during stack unwinding)"),
+ "C14-r4-seq-assign-to-moved-from": ("C14", "move assignment TO a moved-from sequence object: null dereference", "C14 (after sequence moves by assignment, also to a moved-from object, were added)"),
+ "C15-r4-moved-mock-loses-saturated-list": ("C15", "same change as C03-r4 (independently produced): 'matches saturated' listing lost after a mock move", "C15"),
+ "C16-r4-set-reporter-returns-new-ok": ("C16", "two-argument set_reporter returns the NEW OK reporter in .second: restore idiom keeps the inner OK reporter", "C16"),
+ "C17-r4-side-effect-exception-not-traced": ("C17", "accepted call ended by an exception from a SIDE_EFFECT: trace record lacks the exception note", "C17"),
+ "C18-r4-cref-printer-const-type": ("C18", "value reached through reference_wrapper<const X> (const X& parameter): user printer / pair / tuple streamers missed, hex dump instead", "C18"),
+ "C19-r4-times0-then-times-accepted": ("C19", "a second TIMES / RT_TIMES after a limit with upper bound 0 (TIMES(0), FORBID_CALL): compiles silently", "C19 (after the deterministic group of double call-limit misuse was added to engine K; random row sampling had a 3-in-4 chance per draw to miss the shape)"),
+ "C20-r4-co-throw-captures-by-reference": ("C20", "CO_THROW naming a local that changes after the expectation was written: evaluated by reference", "C20 (after engine Q overwrote the locals named by plain clauses once the expectations are written, and gave the LR_ locals their values only then)"),
  "C20-r2-shared-param-tuple-per-expectation": ("C20", "two calls with different arguments on one coroutine expectation, a clause naming _N evaluated after the later call", "C20 (after reference-parameter sites were added to engine Q)"),
 }
 logs = ""
